@@ -36,6 +36,10 @@ def tagged(v):
     return f"<{v}>"
 
 
+def describe_src(v):
+    return "none" if v is None else "spec:" + str(v.get("class_path") if hasattr(v, "get") else v)
+
+
 def build(shape, eoe=False):
     p = ArgumentParser(exit_on_error=eoe, prog="app", env_prefix="APP")
     p.add_argument("--cfg", action=ActionConfigFile)
@@ -75,6 +79,10 @@ def build(shape, eoe=False):
         p.add_argument("--k", type=Optional[int], default=-1)
         p.link_arguments("src.init_args.a", "k")
         links.append((["src.init_args.a"], "k", None, "plain-from-class-init-arg"))
+        p.add_argument("--osrc", type=Optional[zoo.Base])
+        p.add_argument("--tk", type=str, default="dflt")
+        p.link_arguments("osrc", "tk", compute_fn=describe_src)
+        links.append((["osrc"], "tk", describe_src, "plain-from-optional-class"))
     return p, links
 
 
@@ -236,12 +244,19 @@ def case_flat(ctx, i, rng):
             cfgd["src"] = {"class_path": "vf.fixtures.zoo.SubA", "init_args": {"a": rng.randrange(50)}}
         elif r < 0.65:
             argv.append("--src=null")
+        r = rng.random()
+        if r < 0.3:
+            argv.append("--osrc=SubA")
+        elif r < 0.45:
+            cfgd["osrc"] = {"class_path": "vf.fixtures.zoo.SubB"}
+            if rng.random() < 0.5:
+                argv.append("--osrc=null")
     # a value supplied for the target itself (config / object only: the option of a plain target must be rejected)
     tgt_supplied = None
     if rng.random() < 0.5:
         for sources, target, fn, kind in links:
-            if kind == "plain" and rng.random() < 0.6:
-                cfgd[target] = {"b": 7777, "t": 7777, "d": {"zz": 1}, "n": 7777, "k": 7777}.get(target, 7777)
+            if kind in ("plain", "plain-from-optional-class") and rng.random() < 0.6:
+                cfgd[target] = {"b": 7777, "t": 7777, "d": {"zz": 1}, "n": 7777, "k": 7777, "tk": "user-given"}.get(target, 7777)
                 tgt_supplied = target
             if kind == "init_arg" and rng.random() < 0.5:
                 cfgd.setdefault("m", {"class_path": "vf.fixtures.zoo.SubA"}).setdefault("init_args", {})["a"] = 7777
